@@ -311,6 +311,89 @@ func TestRelatedPasswords(t *testing.T) {
 	ev.Label("related-passwords-complete")
 }
 
+// TestLoginSequences: several logins over one connection as the same user, with
+// the caller's or the BMC's password / K_G changing between them. Each login is
+// judged on its own: a session iff the caller's keys are the BMC's current ones;
+// nothing proven by an earlier login may stand in for proof in a later one.
+func TestLoginSequences(t *testing.T) {
+	ev.Check(t, "TestLoginSequences", ev.PickN(800, 80000), func(t *rapid.T) {
+		c := hx.GenCreds(hx.Suites9()).Draw(t, "creds")
+		if len(c.Password) == 0 {
+			c.Password = []byte{0x31}
+		}
+		w := hx.NewWorldFor(c, true)
+		bmcPw, bmcKG := append([]byte(nil), c.Password...), append([]byte(nil), c.KG...)
+		other := func(b []byte, label string) []byte {
+			o := append([]byte(nil), b...)
+			if len(o) == 0 {
+				return []byte("another key value..")
+			}
+			i := rapid.IntRange(0, len(o)-1).Draw(t, label+"Pos")
+			o[i] ^= byte(rapid.IntRange(1, 255).Draw(t, label+"Xor"))
+			return o
+		}
+		same := func(a, b []byte) bool { return string(ref.PadKey(a)) == string(ref.PadKey(b)) }
+		n := rapid.IntRange(2, 5).Draw(t, "logins")
+		var hist []string
+		established, refusedAfterSuccess := 0, false
+		for i := 0; i < n; i++ {
+			step := rapid.SampledFrom([]string{"correct", "correct", "caller-password-differs", "bmc-password-changed", "caller-kg-differs", "bmc-kg-changed"}).Draw(t, "step")
+			callerPw, callerKG := bmcPw, bmcKG
+			switch step {
+			case "caller-password-differs":
+				callerPw = other(bmcPw, "pw")
+			case "bmc-password-changed":
+				callerPw = bmcPw
+				bmcPw = other(bmcPw, "bmcpw")
+				w.BMC.Users[c.User] = bmcPw
+			case "caller-kg-differs":
+				callerKG = other(bmcKG, "kg")
+			case "bmc-kg-changed":
+				callerKG = bmcKG
+				bmcKG = other(bmcKG, "bmckg")
+				w.BMC.KG = bmcKG
+			}
+			hist = append(hist, step)
+			cc := c
+			cc.Password, cc.KG = callerPw, callerKG
+			ctx, cancel := w.Ctx(12)
+			s, err := w.T.NewV2Session(ctx, cc.Opts())
+			cancel()
+			ev.Eval()
+			// without a BMC key the user key takes its place on both sides
+			effCaller, effBMC := callerKG, bmcKG
+			if len(effCaller) == 0 {
+				effCaller = callerPw
+			}
+			if len(effBMC) == 0 {
+				effBMC = bmcPw
+			}
+			pwOK, kgOK := same(callerPw, bmcPw), same(effCaller, effBMC)
+			if pwOK && kgOK {
+				if err != nil || s == nil {
+					t.Fatalf("logins %v: login %d with the BMC's current keys failed: %v; BMC: %v", hist, i+1, err, w.BMC.AllProblems())
+				}
+				established++
+				continue
+			}
+			if s != nil || err == nil {
+				t.Fatalf("logins %v: login %d returned a session (err=%v) although the caller's %s differ from the BMC's", hist, i+1, err, map[bool]string{true: "K_G", false: "password"}[pwOK])
+			}
+			if !pwOK && !errors.Is(err, bmc.ErrIncorrectPassword) {
+				t.Fatalf("logins %v: login %d error is %q, want the incorrect-password error", hist, i+1, err)
+			}
+			if established > 0 {
+				refusedAfterSuccess = true
+			}
+		}
+		if refusedAfterSuccess {
+			ev.Label("sequence:refused-after-earlier-success")
+			ev.NonTrivial(fmt.Sprintf("seq|%v|%v|%d", c.Suite, hist, c.Seed))
+		}
+		ev.Sample(map[string]any{"part": "login sequence on one connection", "suite": c.Suite.String(), "logins": hist})
+	})
+}
+
 func TestRandom(t *testing.T) {
 	ev.Check(t, "TestRandom", ev.PickN(1500, 600000), func(t *rapid.T) {
 		c := hx.GenCreds(hx.Suites9()).Draw(t, "creds")
@@ -350,5 +433,5 @@ func TestCoverage(t *testing.T) {
 			need = append(need, fmt.Sprintf("auth%d:pwprefix16-of-%d", a, n))
 		}
 	}
-	ev.RequireLabels(t, 1, append(need, "enumeration-complete", "related-passwords-complete")...)
+	ev.RequireLabels(t, 1, append(need, "enumeration-complete", "related-passwords-complete", "sequence:refused-after-earlier-success")...)
 }
